@@ -704,6 +704,124 @@ fn op_engine(defs: &[D], lines: &mut Vec<String>) {
     )
     .time_engine_start(time(0))
     .build();
+    engine_lines(defs, &ii, state, lines);
+}
+
+/// one call on the `EngineStateBuilder` (op `engcfg`)
+#[derive(Clone, Debug)]
+enum Call {
+    /// `t`: `time_engine_start`
+    Time,
+    /// `s0` / `s1`: `trading_state(Disabled / Enabled)`
+    Trading(bool),
+    /// `b N (E NI TOTAL FREE){N}`: one `balances` call with N keyed balances in this order
+    Balances(Vec<(usize, usize, usize, usize)>),
+}
+
+/// `None` = malformed (`bad-op`, as the drivers)
+fn parse_calls(toks: &[String]) -> Option<Vec<Call>> {
+    let mut t = Toks(toks.iter());
+    let mut v = vec![];
+    while let Some(c) = t.s() {
+        v.push(match c {
+            "t" => Call::Time,
+            "s0" => Call::Trading(false),
+            "s1" => Call::Trading(true),
+            "b" => {
+                let n = t.n(MAX_NAME)?;
+                let mut bs = vec![];
+                for _ in 0..n {
+                    bs.push((t.n(EXS.len() - 1)?, t.n(MAX_NAME)?, t.v()?, t.v()?));
+                }
+                Call::Balances(bs)
+            }
+            _ => return None,
+        });
+    }
+    Some(v)
+}
+
+/// `engcfg`: the engine state assembled by an arbitrary sequence of builder calls (any order, each
+/// option given never / once / several times; initial balances for none / some / all assets in any
+/// order, over several calls). Prints what `engine` prints for this state, then the trading state,
+/// the balance held at every POSITION of the asset table (`bal`), the balance found for every
+/// supplied key through `find_asset_index` + `asset_index` (`balr`) and the number of entries that
+/// hold a balance (`baln`).
+fn op_engcfg(defs: &[D], calls: &[Call], lines: &mut Vec<String>) {
+    use barter::engine::state::trading::TradingState;
+    use barter_execution::balance::Balance;
+    use barter_instrument::asset::ExchangeAsset;
+    let ii = index(defs);
+    let mut builder = EngineState::builder(
+        &ii,
+        DefaultGlobalData::default(),
+        DefaultInstrumentMarketData::default,
+    );
+    for c in calls {
+        builder = match c {
+            Call::Time => builder.time_engine_start(time(0)),
+            Call::Trading(on) => builder.trading_state(if *on {
+                TradingState::Enabled
+            } else {
+                TradingState::Disabled
+            }),
+            Call::Balances(bs) => builder.balances(bs.iter().map(|(e, ni, tot, free)| {
+                Keyed::new(
+                    ExchangeAsset::new(EXS[*e], asset_ni(*ni)),
+                    Balance::new(dec(*tot), dec(*free)),
+                )
+            })),
+        };
+    }
+    let state: EngineState<DefaultGlobalData, DefaultInstrumentMarketData> = builder.build();
+    let trading = state.trading == TradingState::Enabled;
+    let bal = |st: &barter::engine::state::asset::AssetState| match &st.balance {
+        Some(b) => format!("{} {}", undec(b.value.total), undec(b.value.free)),
+        None => "none".to_string(),
+    };
+    let mut extra = vec![format!("trd {}", b(trading))];
+    let mut n_bal = 0usize;
+    for k in 0..state.assets.0.len() {
+        let (key, _) = state.assets.0.get_index(k).unwrap();
+        let st = state.assets.asset_index(&AssetIndex(k));
+        n_bal += st.balance.is_some() as usize;
+        extra.push(format!(
+            "bal {k} {} {} {}",
+            label(key.exchange),
+            un(key.asset.name()),
+            bal(st)
+        ));
+    }
+    let supplied = calls.iter().flat_map(|c| match c {
+        Call::Balances(bs) => bs.clone(),
+        _ => vec![],
+    });
+    for (j, (e, ni, ..)) in supplied.enumerate() {
+        let r = catch_unwind(AssertUnwindSafe(|| {
+            let k = ii.find_asset_index(EXS[e], &asset_ni(ni)).ok()?;
+            let (key, _) = state.assets.0.get_index(k.0)?;
+            let st = state.assets.asset_index(&k);
+            Some(format!(
+                "{} {} {}",
+                label(key.exchange),
+                un(key.asset.name()),
+                bal(st)
+            ))
+        }))
+        .unwrap_or(None);
+        extra.push(format!("balr {j} {}", r.unwrap_or_else(|| "unknown".into())));
+    }
+    extra.push(format!("baln {n_bal}"));
+    engine_lines(defs, &ii, state, lines);
+    lines.extend(extra);
+}
+
+fn engine_lines(
+    defs: &[D],
+    ii: &IndexedInstruments,
+    state: EngineState<DefaultGlobalData, DefaultInstrumentMarketData>,
+    lines: &mut Vec<String>,
+) {
     for (k, (name, st)) in state.instruments.0.iter().enumerate() {
         lines.push(format!(
             "ins {k} {} {} {}",
@@ -855,13 +973,42 @@ impl<const N: usize> ExecutionClient for Stub<N> {
 }
 
 fn op_exec(defs: &[D], es: &[usize], lines: &mut Vec<String>) {
+    // the mock path supports spot instruments only; use it when it can be used
+    let es: Vec<(bool, usize)> = es
+        .iter()
+        .map(|e| {
+            let all_spot = defs.iter().filter(|d| d.e == *e).all(|d| d.kind == K::S);
+            (all_spot && *e % 2 == 0, *e)
+        })
+        .collect();
+    op_exec_kinds(defs, &es, false, lines)
+}
+
+/// `execk` tokens `m<E>` (add_mock) / `l<E>` (add_live); `None` = malformed
+fn parse_kinds(toks: &[String]) -> Option<Vec<(bool, usize)>> {
+    toks.iter()
+        .map(|t| {
+            let mock = match t.as_bytes().first()? {
+                b'm' => true,
+                b'l' => false,
+                _ => return None,
+            };
+            let e = parse_nats(std::slice::from_ref(&t[1..].to_string()), EXS.len() - 1)?;
+            Some((mock, e[0]))
+        })
+        .collect()
+}
+
+/// the executions `(mock?, exchange)` added in this order with the kind of link the OP names
+/// (`exec` derives the kind from the exchange; `execk` lets every exchange have either kind; an
+/// `add_mock` for an exchange with a non-spot instrument panics in the real code - documented).
+/// `counts`: also print how many mock-exchange / manager-init futures the build holds.
+fn op_exec_kinds(defs: &[D], es: &[(bool, usize)], counts: bool, lines: &mut Vec<String>) {
     let ii = index(defs);
     let mut builder = ExecutionBuilder::new(&ii);
     let timeout = std::time::Duration::from_secs(1);
-    for e in es {
-        // the mock path supports spot instruments only; use it when it can be used
-        let all_spot = defs.iter().filter(|d| d.e == *e).all(|d| d.kind == K::S);
-        let res = if all_spot && *e % 2 == 0 {
+    for (mock, e) in es {
+        let res = if *mock {
             builder.add_mock(
                 MockExecutionConfig {
                     mocked_exchange: EXS[*e],
@@ -895,6 +1042,13 @@ fn op_exec(defs: &[D], es: &[usize], lines: &mut Vec<String>) {
         }
     }
     let build = builder.build();
+    if counts {
+        lines.push(format!(
+            "nfut {} {}",
+            build.futures.mock_exchange_run_futures.len(),
+            build.futures.execution_init_futures.len()
+        ));
+    }
     let map = &build.execution_tx_map;
     let table: Vec<(String, bool)> = map
         .into_iter()
@@ -934,7 +1088,9 @@ fn run() {
                 Build,
                 Perm(Vec<usize>),
                 Engine,
+                EngCfg(Vec<Call>),
                 Exec(Vec<usize>),
+                ExecK(Vec<(bool, usize)>),
             }
             let parsed = match op[0].as_str() {
                 "dec" if op.len() == 3 => parse_nats(&op[1..2], 8)
@@ -946,7 +1102,9 @@ fn run() {
                     .filter(|p| p.iter().all(|i| *i < defs.len()))
                     .map(Op::Perm),
                 "engine" if op.len() == 1 => Some(Op::Engine),
+                "engcfg" => parse_calls(&op[1..]).map(Op::EngCfg),
                 "exec" => parse_nats(&op[1..], EXS.len() - 1).map(Op::Exec),
+                "execk" => parse_kinds(&op[1..]).map(Op::ExecK),
                 _ => None,
             };
             let Some(parsed) = parsed else {
@@ -962,7 +1120,9 @@ fn run() {
                 Op::Build => op_build(&defs, &mut block),
                 Op::Perm(p) => op_perm(&defs, &p, &mut block),
                 Op::Engine => op_engine(&defs, &mut block),
+                Op::EngCfg(calls) => op_engcfg(&defs, &calls, &mut block),
                 Op::Exec(es) => op_exec(&defs, &es, &mut block),
+                Op::ExecK(es) => op_exec_kinds(&defs, &es, true, &mut block),
             }));
             match res {
                 Ok(()) => lines.extend(block),
@@ -1481,7 +1641,173 @@ fn generate(seed: u64, n_cases: usize, tier: &str) {
         let mut g = Gen2::new(rng.fork(), wf, shared, n_ex, na, if shared { n.max(8) } else { 1000 });
         emit_case2(&mut out, &mut g, format!("l{}", k + 1), n, k % 3 == 2);
     }
+    // set-up family `g` (configuration shapes of the derived tables), separately seeded: the engine
+    // state assembled by an arbitrary sequence of builder calls - see `emit_case_cfg`
+    let mut rng = Rng::new(seed ^ 0x11cf_61a7);
+    for k in 0..(n_cases / 6).max(if n_cases > 0 { 8 } else { 0 }) {
+        let wf = !rng.chance(10);
+        let n_ex = rng.range(1, 5) as usize;
+        let na = rng.range(2, 5) as usize;
+        let n = rng.range(0, 9) as usize;
+        let mut g = Gen2::new(rng.fork(), wf, k % 5 == 1, n_ex, na, 1000);
+        emit_case_cfg(&mut out, &mut g, format!("g{}", k + 1), n, k);
+    }
     out.flush();
+}
+
+/// Set-up shapes of `EngineStateBuilder`: per case three `engcfg` ops, each a different sequence of
+/// builder calls - `time_engine_start` / `trading_state` given never, once or twice, before, between
+/// or after the `balances` calls; initial balances for NONE, SOME or ALL assets of the collection, in
+/// index order, reversed or shuffled, in one call or spread over several, with a key repeated (the
+/// later value wins), with the same asset name on two exchanges carrying different balances; 4 % with
+/// a key the collection does not hold (the builder panics there: model vs code only).
+fn emit_case_cfg(out: &mut Out, g: &mut Gen2, id: String, n: usize, k: usize) {
+    out.case(id);
+    if k % 7 == 3 {
+        out.line("dec 2 500");
+    }
+    let defs: Vec<D> = g
+        .defs(n)
+        .into_iter()
+        // every other case: spot instruments only on all but the case's first exchange, so that a mock
+        // link can be asked for on several exchanges at once
+        .map(|d| D {
+            e: g.exs[d.e],
+            kind: if k % 2 == 0 && d.e != 0 { K::S } else { d.kind.clone() },
+            ..d
+        })
+        .collect();
+    for d in &defs {
+        out.line(format!("def {}", def_toks(d)));
+    }
+    // the collection's exchange-assets (by exchange label and internal name), ascending = index order
+    let mut keys: Vec<(usize, usize)> = defs
+        .iter()
+        .flat_map(|d| def_assets(d).into_iter().map(move |a| (d.e, a.0)))
+        .collect();
+    keys.sort();
+    keys.dedup();
+    for op in 0..3 {
+        // which assets get a balance
+        let mut ks: Vec<(usize, usize)> = match (op + k) % 4 {
+            0 => vec![],
+            1 => keys.clone(),
+            _ => keys.iter().copied().filter(|_| g.rng.chance(50)).collect(),
+        };
+        match g.rng.below(3) {
+            0 => {}
+            1 => ks.reverse(),
+            _ => {
+                let mut p: Vec<usize> = (0..ks.len()).collect();
+                shuffle(&mut g.rng, &mut p);
+                ks = p.iter().map(|i| ks[*i]).collect();
+            }
+        }
+        if !ks.is_empty() && g.rng.chance(30) {
+            // a key repeated (another value; the later one wins)
+            let x = *g.rng.pick(&ks);
+            let at = g.rng.below(ks.len() as u64 + 1) as usize;
+            ks.insert(at, x);
+        }
+        if g.rng.chance(4) {
+            // a key outside the collection: an unknown exchange or an unknown name
+            let at = g.rng.below(ks.len() as u64 + 1) as usize;
+            let e = if g.rng.chance(50) && !keys.is_empty() {
+                g.rng.pick(&keys).0
+            } else {
+                g.rng.below(EXS.len() as u64) as usize
+            };
+            ks.insert(at, (e, 900 + g.rng.below(3) as usize));
+        }
+        // distinct values so that a balance landing on the wrong entry shows
+        let bs: Vec<String> = ks
+            .iter()
+            .enumerate()
+            .map(|(j, (e, ni))| {
+                let tot = 1000 + 10 * j + g.rng.below(3) as usize;
+                format!("{e} {ni} {tot} {}", g.rng.below(tot as u64 + 1))
+            })
+            .collect();
+        // split over 0-3 `balances` calls (an empty call is legal)
+        let mut calls: Vec<String> = vec![];
+        let parts = g.rng.range(if bs.is_empty() { 0 } else { 1 }, 3) as usize;
+        let mut rest = &bs[..];
+        for part in 0..parts {
+            let take = if part + 1 == parts {
+                rest.len()
+            } else {
+                g.rng.below(rest.len() as u64 + 1) as usize
+            };
+            let (now, later) = rest.split_at(take);
+            rest = later;
+            calls.push(format!("b {} {}", now.len(), now.join(" ")).trim_end().to_string());
+        }
+        // the other options: never / once / twice, anywhere in the sequence
+        for opt in ["t", "s"] {
+            for _ in 0..*g.rng.pick(&[0usize, 1, 1, 1, 2]) {
+                let at = g.rng.below(calls.len() as u64 + 1) as usize;
+                let c = if opt == "t" {
+                    "t".to_string()
+                } else {
+                    format!("s{}", g.rng.below(2))
+                };
+                calls.insert(at, c);
+            }
+        }
+        out.line(format!("engcfg {}", calls.join(" ")).trim_end());
+    }
+    // execution links with the KIND of link chosen freely per exchange (`exec` ties it to the
+    // exchange): none at all / all / only the last / only the first / a random subset of the
+    // collection's exchanges, in index order, reversed or shuffled; all mock, all live or mixed
+    let mut known: Vec<usize> = defs.iter().map(|d| d.e).collect();
+    known.sort();
+    known.dedup();
+    let spot_only =
+        |e: usize| defs.iter().filter(|d| d.e == e).all(|d| d.kind == K::S);
+    for op in 0..3 {
+        let mut es: Vec<usize> = match (op + k) % 5 {
+            0 => vec![],
+            1 => known.clone(),
+            2 => known.last().copied().into_iter().collect(),
+            3 => known.first().copied().into_iter().collect(),
+            _ => known.iter().copied().filter(|_| g.rng.chance(50)).collect(),
+        };
+        match g.rng.below(3) {
+            0 => {}
+            1 => es.reverse(),
+            _ => {
+                let mut p: Vec<usize> = (0..es.len()).collect();
+                shuffle(&mut g.rng, &mut p);
+                es = p.iter().map(|i| es[*i]).collect();
+            }
+        }
+        if g.rng.chance(6) {
+            // refused by the builder: an exchange outside the collection, or one added twice
+            let x = if es.is_empty() || g.rng.chance(50) {
+                g.rng.below(EXS.len() as u64) as usize
+            } else {
+                *g.rng.pick(&es)
+            };
+            let at = g.rng.below(es.len() as u64 + 1) as usize;
+            es.insert(at, x);
+        }
+        let mode = g.rng.below(3);
+        let toks: Vec<String> = es
+            .iter()
+            .map(|e| {
+                // a mock link needs a spot-only exchange (3 %: asked for anyway - the real code panics)
+                let can_mock = spot_only(*e) || g.rng.chance(3);
+                let mock = can_mock
+                    && match mode {
+                        0 => true,
+                        1 => false,
+                        _ => g.rng.chance(50),
+                    };
+                format!("{}{e}", if mock { "m" } else { "l" })
+            })
+            .collect();
+        out.line(format!("execk {}", toks.join(" ")).trim_end());
+    }
 }
 
 fn main() {
